@@ -68,10 +68,13 @@ pub struct EncOpts {
 	/// 0 zoom_level, tile_column, tile_row, tile_data; 1 tile_data first; 2 tile_column, tile_row, zoom_level,
 	/// tile_data; 3 tile_row, zoom_level, tile_data, tile_column
 	pub column_order: u8,
+	/// a flat `tiles` table next to a `map` table another tool left behind (a few stale rows of other levels /
+	/// coordinates): only `tiles` is the tile set
+	pub leftover_map: bool,
 }
 impl EncOpts {
 	pub fn random(rng: &mut Rng) -> EncOpts {
-		EncOpts { extra_metadata: rng.chance(0.5), with_bounds: rng.chance(0.5), shuffle: rng.chance(0.5), with_index: rng.chance(0.7), tiles_as_view: rng.chance(0.35), dangling_rows: rng.chance(0.4), column_order: if rng.chance(0.6) { 0 } else { 1 + rng.below(3) as u8 } }
+		EncOpts { extra_metadata: rng.chance(0.5), with_bounds: rng.chance(0.5), shuffle: rng.chance(0.5), with_index: rng.chance(0.7), tiles_as_view: rng.chance(0.35), dangling_rows: rng.chance(0.4), column_order: if rng.chance(0.6) { 0 } else { 1 + rng.below(3) as u8 }, leftover_map: rng.chance(0.2) }
 	}
 }
 
@@ -105,6 +108,13 @@ pub fn encode(ts: &TileSet, path: &Path, o: &EncOpts, rng: &mut Rng) -> Result<(
 	} else {
 		let cols = ordered(o, ["zoom_level INTEGER", "tile_column INTEGER", "tile_row INTEGER", "tile_data BLOB"]).join(", ");
 		conn.execute_batch(&format!("CREATE TABLE metadata (name TEXT, value TEXT); CREATE TABLE tiles ({cols});")).map_err(|e| e.to_string())?;
+	}
+	if o.leftover_map && !o.tiles_as_view {
+		conn.execute_batch(
+			"CREATE TABLE map (zoom_level INTEGER, tile_column INTEGER, tile_row INTEGER, tile_id TEXT);
+			 INSERT INTO map VALUES (3, 2, 5, 'stale-a'); INSERT INTO map VALUES (3, 3, 4, 'stale-b'); INSERT INTO map VALUES (17, 70000, 60000, 'stale-c');",
+		)
+		.map_err(|e| e.to_string())?;
 	}
 	if o.with_index && !o.tiles_as_view {
 		conn.execute_batch("CREATE UNIQUE INDEX tile_index ON tiles (zoom_level, tile_column, tile_row);").map_err(|e| e.to_string())?;
